@@ -189,6 +189,11 @@ C11Times == {ts \in TimeSubsets3 : IndexIn(TimePool, ts[1]) < IndexIn(TimePool, 
 L6 == <<LeadPool[2], LeadPool[5], LeadPool[3], LeadPool[6], LeadPool[1]>>     \* 12, 47, 24, 48, 0
 UC11(u) == {[inp |-> <<[ts |-> ts, ls |-> L6, ss |-> Sa, hasObs |-> TRUE, mo |-> {<<1, 2, 1>>}, mf |-> {<<2, 3, 2>>}, bump |-> 0]>>,
              clim |-> NoClimGen, opt |-> NoOptions] : ts \in C11Times}
+\* the nine times under a date / hour-of-day selection that removes some of them: the buckets are those of the times that remain
+UC11Sel(u) == {[inp |-> <<[ts |-> SubSeq(TimePool, 1, 9), ls |-> L6, ss |-> Sa, hasObs |-> TRUE, mo |-> {<<1, 2, 1>>}, mf |-> {<<2, 3, 2>>}, bump |-> 0]>>,
+             clim |-> NoClimGen, opt |-> o] : o \in {WithOpt(NoOptions, "d", {20120101, 20120201, 20120229, 20120301}), WithOpt(NoOptions, "tod", {0}),
+                                                      WithOpt(NoOptions, "tod", {6, 18, 23}), WithOpt(NoOptions, "d", {20111231, 20121231, 20110301}),
+                                                      WithOpt(WithOpt(NoOptions, "d", {20120101, 20120102, 20120201}), "tod", {0})}}
 UC11All(u) == {[inp |-> <<[ts |-> SubSeq(TimePool, 1, 9), ls |-> L6, ss |-> Sa, hasObs |-> TRUE, mo |-> {<<1, 2, 1>>}, mf |-> {<<2, 3, 2>>}, bump |-> 0]>>,
              clim |-> NoClimGen, opt |-> NoOptions]}
 
@@ -292,6 +297,7 @@ Universe(u) ==
     [] Family = "C03ClimK2" -> UC03Clim(2)
     [] Family = "C11"       -> UC11(0)
     [] Family = "C11All"    -> UC11All(0)
+    [] Family = "C11Sel"    -> UC11Sel(0)
     [] Family = "C14"       -> UC14(0)
     [] Family = "C14Two"    -> UC14Two(0)
 
